@@ -403,7 +403,7 @@ def body(chk):
 
 
 RULE = ("cases = (operator, left operand, right operand); strata: all 9x9 sign classes x 4 ops scalar-scalar, shape pairings "
-        "()/(1,)/(k,) of Interval x Interval, number kinds {int,float,np.float64,np.int64,0-d array,ndarray} on either side, "
+        "()/(1,)/(k,) of Interval x Interval, number kinds {int,float,np.float64/float32,np.int8..uint64,0-d array,ndarray of float or (un)signed integer dtype} on either side, "
         "foreign operands, wide magnitudes, 2-d arrays (oracle only); distinct key = (op, operand kinds, shapes, leading sign classes); "
         "foreign-operand cases are counted as trivial")
 TB = ["translator tools/translate_arith.py (fail-closed ast subset) regenerating Gen/GenArith.v on every run",
